@@ -39,7 +39,7 @@ Ltac forget_if_node t :=
   lazymatch t with
   | Cplus _ _ => pm_forget t | Cminus _ _ => pm_forget t | Copp _ => pm_forget t | Cmult _ _ => pm_forget t
   | Cinv _ => pm_forget t | Cdiv _ _ => pm_forget t | RtoC _ => pm_forget t | Cexp _ => pm_forget t
-  | Csqrt _ => pm_forget t | (_, _) => pm_forget t
+  | Csqrt _ => pm_forget t | Cconj _ => pm_forget t | (_, _) => pm_forget t
   | _ => idtac
   end.
 
@@ -52,6 +52,8 @@ Ltac cx_enc rn t :=
       enc_real_as (fst t) (fst a + - fst b); enc_real_as (snd t) (snd a + - snd b); forget_if_node a; forget_if_node b
   | Copp ?a => cx_enc rn a;
       enc_real_as (fst t) (- fst a); enc_real_as (snd t) (- snd a); forget_if_node a
+  | Cconj ?a => cx_enc rn a;
+      enc_real_as (fst t) (fst a); enc_real_as (snd t) (- snd a); forget_if_node a
   | Cmult ?a ?b => cx_enc rn a; cx_enc rn b;
       enc_real_as (fst t) (fst a * fst b - snd a * snd b); enc_real_as (snd t) (fst a * snd b + snd a * fst b);
       forget_if_node a; forget_if_node b
@@ -86,13 +88,25 @@ Ltac cx_enc rn t :=
             assert (lo2 <= snd t <= hi2) by
               (change (snd t) with ((if Rle_dec 0 (snd a) then 1 else -1) * sqrt ((sqrt (fst a ^ 2 + snd a ^ 2) - fst a) / 2));
                destruct (Rle_dec 0 (snd a)); [lra | lra])
+          end end
+        | (* sign of the imaginary part not decided by the enclosure (e.g. exactly real radicand), but the real part is positive:
+             away from the branch cut both branches are within sqrt((|a| - re a)/2) of 0 *)
+          interval_intro (sqrt ((sqrt (fst a ^ 2 + snd a ^ 2) + fst a) / 2)) with (i_prec 100) as H1;
+          interval_intro (sqrt ((sqrt (fst a ^ 2 + snd a ^ 2) - fst a) / 2)) with (i_prec 100) as H2;
+          lazymatch goal with Hre : ?lor <= fst a <= _ |- _ => assert (0 < lor) by (interval with (i_prec 100)) end;
+          lazymatch type of H1 with ?lo <= _ <= ?hi => lazymatch type of H2 with _ <= _ <= ?hi2 =>
+            assert (lo <= fst t <= hi) by exact H1;
+            assert (- hi2 <= snd t <= hi2) by
+              (change (snd t) with ((if Rle_dec 0 (snd a) then 1 else -1) * sqrt ((sqrt (fst a ^ 2 + snd a ^ 2) - fst a) / 2));
+               pose proof (sqrt_pos ((sqrt (fst a ^ 2 + snd a ^ 2) - fst a) / 2));
+               destruct (Rle_dec 0 (snd a)); lra)
           end end ];
       clear H1 H2; forget_if_node a
   | (?x, ?y) => let x' := rn x in let y' := rn y in enc_real_as (fst t) x'; enc_real_as (snd t) y'
   end.
 
 Ltac pm_enc rn t :=
-  let f := lazymatch t with ?f _ _ => f | ?f _ => f end in
+  let f := lazymatch t with ?f _ _ _ => f | ?f _ _ => f | ?f _ => f end in
   let body := eval unfold f in t in
   cx_enc rn body;
   lazymatch goal with
